@@ -179,6 +179,9 @@ ZOO = {
     # ambiguous on purpose: "1+2+3" has two derivations, so the tree a caller hands in need not be the parser's first one
     "amb": {"<start>": ["<e>"], "<e>": ["<e>+<e>", "<d>", "(<e>)"], "<d>": ["1", "2", "3"]},
     # the only alternative leading from <pair> to <item> mentions <item> twice (a path through a repeated symbol)
+    # numerals that cannot be written in plain decimal: mandatory zero padding
+    "pad": {"<start>": ["<row>"], "<row>": ["<int>", "<int>,<row>"], "<int>": ["0<digit>", "00<digit>"],
+            "<digit>": ["0", "1", "2", "3", "4", "5", "6", "7", "8", "9"]},
     "pairs": {"<start>": ["<list>"], "<list>": ["<pair>", "<pair>;<list>"], "<pair>": ["<item>,<item>"],
               "<item>": ["<num>", "(<pair>)"], "<num>": ["1", "2"]},
     "lang": {"<start>": ["<stmt>"], "<stmt>": ["<assgn> ; <stmt>", "<assgn>"], "<assgn>": ["<var> := <rhs>"],
